@@ -449,7 +449,7 @@ func checkC10(o options) int {
 			continue
 		}
 		unknownCount++
-		if unknownCount > 5 {
+		if unknownCount > o.maxClasses {
 			continue
 		}
 		dst := filepath.Join(outDir, fmt.Sprintf("C10-seed%d-%d-%s", o.seed, unknownCount, strings.TrimPrefix(strings.TrimPrefix(filepath.Base(f.replay), "esc-"), "C10-")))
